@@ -265,6 +265,11 @@ func check(id string, args []string) (code int) {
 			if !ok {
 				src, err = os.ReadFile(abs)
 				if err != nil {
+					if os.IsNotExist(err) && e.Old == "" {
+						// a file the variant adds
+						opt.Overlay[abs] = []byte(e.New)
+						continue
+					}
 					fmt.Println("overlay:", err)
 					return 2
 				}
